@@ -400,7 +400,7 @@ def gen_link(rng, P, s, li):
                 words.append(["CDW", its.cdw(cdw_user, rng.randrange(1 << 24))])
                 s.features.add("cdw")
             flags = []
-            frame_bc = rng.randrange(256)
+            frame_bc = rng.choice([0, 0, 255, 1, rng.randrange(256), rng.randrange(256), rng.randrange(256)])   # boundary bunch counters often
             chipmap = {}
             lane = _lane_data(rng, P, link, frame_bc, s, flags, chipmap)
             per_lane = {i: alpide.to_data_words(i, d) for i, d in lane.items()}
